@@ -121,10 +121,66 @@ def rfields(rng, depth, vt, allow_flag=False):
                                "ct": rng.random() < 0.3}))
         for k in rng.sample(LISTKEYS, rng.choice([0, 0, 1])):
             item_fields = rfields(rng, max(0, depth - 2), vt)
-            fields.append((k, {"t": "cfglist", "required": rng.random() < 0.25, "vals": rvals(rng, item_fields, vt),
-                               "fields": item_fields, "ct": rng.random() < 0.3}))
+            nd = {"t": "cfglist", "required": rng.random() < 0.25, "vals": rvals(rng, item_fields, vt),
+                  "fields": item_fields, "ct": rng.random() < 0.3}
+            if rng.random() < 0.4:
+                nd["default"] = rdefault_items(rng, item_fields, vt, nd["vals"])
+            fields.append((k, nd))
     rng.shuffle(fields)
     return fields
+
+
+def rdefault_items(rng, item_fields, vt, vals):
+    """ListField(schema, default=[maps]) / default=lambda: [maps]: 0-3 maps over the LEAF keys of the item schema that are known
+    to load and validate (the premise of C01: declared defaults are themselves valid -- the constructor raises otherwise);
+    None when the item schema has a required leaf this generator cannot give a value"""
+    maps = []
+    for _ in range(rng.choice([0, 1, 2, 2, 3])):
+        m = vtree(rng, item_fields)
+        if not default_item_ok(item_fields, m, vt, vals):
+            return None
+        items = list(m.items())
+        rng.shuffle(items)
+        maps.append(dict(items))
+    return {"callable": rng.random() < 0.4, "maps": maps}
+
+
+def default_item_ok(item_fields, m, vt, vals):
+    """independent re-statement: every given value meets its leaf's constraints as it stands, every required leaf ends up set,
+    no schema validator of the item schema refuses the result"""
+    decl = dict(item_fields)
+    for k, nd in item_fields:
+        if nd["t"] != "leaf":
+            continue
+        v = m[k] if k in m else (None if nd["callable"] else nd["default"])
+        if k in m and (not leaf_ok(nd, v) or v is None):
+            return False
+        if nd["required"] and (v is None or v == ""):
+            return False
+    for k, nd in item_fields:
+        if nd["t"] == "leaf" and nd["kind"][0] == "flag" and not (m[k] if k in m else nd["default"]):
+            return True           # the item is switched off: its validation is skipped altogether
+    if not all(fresh_valid(nd) for k, nd in item_fields if nd["t"] != "leaf"):
+        return False              # a nested configuration of the fresh item would not validate
+    for n in vals:
+        key, badv = dict((a, (b, c)) for a, b, c in vt)[n]
+        v = m.get(key, decl[key]["default"] if key in decl else None)
+        if v == badv:
+            return False
+    return True
+
+
+def fresh_valid(nd):
+    """does a freshly built value of this node pass whole-configuration validation (by the declarations alone)"""
+    if nd["t"] == "leaf":
+        d = nd["default"]
+        return not (nd["required"] and (d is None or d == ""))
+    if nd["t"] == "cfglist":
+        return not nd["required"] or bool((nd.get("default") or {}).get("maps"))
+    for k, sub in nd["fields"]:
+        if sub["t"] == "leaf" and sub["kind"][0] == "flag" and not sub["default"]:
+            return True
+    return all(fresh_valid(sub) for k, sub in nd["fields"])
 
 
 def rvals(rng, fields, vt):
@@ -543,21 +599,21 @@ def matrix_cases():
     # the caller keeps using ITS reference to the object after handing it over: same object, so the configuration moves with it
     aliased = []
     for d in (sub_srcs[0], sub_srcs[3]):
-        for inner in (((), ("set", "a", 5, "attr")), ((), ("set", "a", 99, "dotted")), (K("inner"), ("set", "t", "ok now", "attr")),
+        for inn in (((), ("set", "a", 5, "attr")), ((), ("set", "a", 99, "dotted")), (K("inner"), ("set", "t", "ok now", "attr")),
                       (K("inner"), ("set", "t", "", "dotted")), ((), ("reset", "a")), ((), ("load", {"b": "no"}, True)),
                       ((), ("validate", False)), ((), ("set", "inner", {"t": "new"}, "attr"))):
-            aliased.append([((), ("setobj", "sub", Obj(("sub",), d), "attr")), ((), ("alias", [("key", "sub")] + list(inner[0]), inner[1]))])
-    for inner in (S("t", "later"), S("t", "bad!"), S("flag", False)):
+            aliased.append([((), ("setobj", "sub", Obj(("sub",), d), "attr")), ((), ("alias", [("key", "sub")] + list(inn[0]), inn[1]))])
+    for inn in (S("t", "later"), S("t", "bad!"), S("flag", False)):
         aliased.append([(K("sub"), ("setobj", "inner", Obj(("sub", "inner"), []), "attr")),
-                        (K("sub"), ("alias", [("key", "inner")] + list(inner[0]), inner[1])), ((), ("validate", True))])
+                        (K("sub"), ("alias", [("key", "inner")] + list(inn[0]), inn[1])), ((), ("validate", True))])
     aliased_items = []          # on a list that already holds two items: the appended object is items[2], the inserted one items[0]
-    for inner in (S("n", 9), S("n", 99), S("s", "zz"), ((), ("reset", "n"))):
+    for inn in (S("n", 9), S("n", 99), S("s", "zz"), ((), ("reset", "n"))):
         aliased_items.append([((), ("appendobj", "items", Obj(("items",), item_srcs[1]))),
-                              ((), ("alias", [("item", "items", 2)] + list(inner[0]), inner[1])), ((), ("validate", True))])
+                              ((), ("alias", [("item", "items", 2)] + list(inn[0]), inn[1])), ((), ("validate", True))])
         aliased_items.append([((), ("insertobj", "items", 0, Obj(("items",), item_srcs[1]))),
-                              ((), ("alias", [("item", "items", 0)] + list(inner[0]), inner[1])), ((), ("validate", True))])
+                              ((), ("alias", [("item", "items", 0)] + list(inn[0]), inn[1])), ((), ("validate", True))])
         aliased_items.append([((), ("setidxobj", "items", 1, Obj(("items",), item_srcs[1]))),
-                              ((), ("alias", [("item", "items", 1)] + list(inner[0]), inner[1])), ((), ("validate", False))])
+                              ((), ("alias", [("item", "items", 1)] + list(inn[0]), inn[1])), ((), ("validate", False))])
     # a refused object is still the caller's: offered again as it is it must be refused again, in the same way; after the caller
     # has repaired it through its own reference it is taken
     A = lambda kind, k, i, dops: ((), ("again", kind, k, i, dops))        # noqa: E731
@@ -594,7 +650,42 @@ def matrix_cases():
                       ((), ("setidxobj", "rows", 0, Obj(("rows",), d)))]
     probes_b = [((), ("validate", False)), ((), ("validate", True)), ((), ("set", "rows", [{"n": 1}], "attr")), ((), ("reset", "typed")),
                 (K("typed"), ("set", "need", 5, "dotted")), ((), ("load", {"typed": {"need": 3}}, True)), ((), ("load", {"n": 4}, True))]
+    # ---- lists of configurations with declared default items (constant and callable) ----
+    fields_d = [("n", {"t": "leaf", "kind": ("int", 1, 100), "required": False, "default": 3, "callable": True, "sensitive": False}),
+                ("items", {"t": "cfglist", "required": False, "vals": [], "fields": item,
+                           "default": {"callable": False, "maps": [{"n": 1}, {"s": " AbC ", "n": "2"}]}}),
+                ("rows", {"t": "cfglist", "required": True, "vals": [], "fields": item, "ct": True,
+                          "default": {"callable": True, "maps": [{"n": 3}]}}),
+                ("none", {"t": "cfglist", "required": True, "vals": [], "fields": item, "default": {"callable": False, "maps": []}}),
+                ("sub", {"t": "sub", "dyn": False, "vals": [], "fields": [
+                    ("a", {"t": "leaf", "kind": ("int", None, 20), "required": False, "default": 5, "callable": True, "sensitive": False}),
+                    ("lst", {"t": "cfglist", "required": False, "vals": [0], "fields": inner,
+                             "default": {"callable": True, "maps": [{"t": "one"}, {"flag": False, "t": "two"}]}})]})]
+    base_d = {"vt": vt, "dyn": False, "vals": [], "fields": fields_d}
+    I = lambda k, i: (("item", k, i),)          # noqa: E731,E741
+    ops_d = [((), ("validate", False)), ((), ("validate", True)),
+             (I("items", 0), ("reset", "n")), (I("items", 1), ("set", "s", "TOOLONG", "attr")), (I("items", 1), ("set", "n", 7, "attr")),
+             (I("items", 0), ("load", {"n": None}, False)), (I("items", 0), ("validate", False)),
+             ((), ("reset", "items")), ((), ("reset", "rows")), ((), ("reset", "none")), ((), ("reset", "sub")), (K("sub"), ("reset", "lst")),
+             ((), ("append", "items", {"n": 4})), ((), ("append", "items", {"n": 44})), ((), ("insert", "rows", 0, {"n": 5})),
+             ((), ("append", "none", {"n": 1})), ((), ("setidx", "items", 0, {"n": 6})),
+             ((), ("appendobj", "items", Obj(("items",), [S("n", 4)]))), ((), ("appendobj", "rows", Obj(("rows",), []))),
+             ((), ("set", "items", [{"n": 7}], "attr")), ((), ("set", "items", None, "attr")), ((), ("set", "rows", [], "attr")),
+             ((), ("set", "none", [{"n": 2}], "dotted")), ((), ("load", {"items": [{"n": 9}]}, True)), ((), ("load", {}, True)),
+             ((), ("load", {"rows": None}, True)), ((), ("set", "sub", {"a": 1}, "attr")), ((), ("set", "sub", {"lst": []}, "attr")),
+             ((), ("setobj", "sub", Obj(("sub",), [S("a", 2)]), "attr")), ((), ("setobj", "sub", Obj(("sub",), [((("item", "lst", 0),), ("set", "t", "bad!", "attr"))]), "attr")),
+             (K("sub") + I("lst", 0), ("set", "t", "bad!", "attr")), (K("sub") + I("lst", 1), ("set", "t", "bad!", "attr")),
+             (K("sub") + I("lst", 1), ("set", "flag", True, "attr")), (K("sub") + I("lst", 0), ("reset", "t")),
+             (I("rows", 0), ("reset", "n")), (I("rows", 0), ("set", "n", 99, "attr")), (K("sub"), ("validate", False))]
     cases = []
+    for o in ops_d:
+        cases.append(dict(base_d, kw={}, ops=[o], kind="matrix-dflt"))
+    for idx, (o1, o2) in enumerate(itertools.product(ops_d, repeat=2)):
+        if idx % 3 == 0:
+            cases.append(dict(base_d, kw={}, ops=[o1, o2, ((), ("validate", True))], kind="matrix-dflt2"))
+    for kwd in ({"items": [{"n": 5}]}, {"rows": [{"n": 1}, {"n": 2}], "sub": {"a": 3}}, {"none": []}, {"sub": Obj(("sub",), [])},
+                {"sub": {"lst": [{"t": "k"}]}}, {"n": 9}):
+        cases.append(dict(base_d, kw=kwd, ops=[((), ("validate", True)), ((), ("reset", "items")), ((), ("reset", "sub"))], kind="matrix-ctor"))
     kw2 = {"items": [{"n": 1}, {"n": 2, "s": "two"}]}
     for i, o in enumerate(obj_ops):
         cases.append(dict(base, kw={}, ops=[o], kind="matrix-obj"))
@@ -718,7 +809,13 @@ def g_node(nd):
         return g_leaf(nd)
     if nd["t"] == "sub":
         return "(NSub %s %s %s)" % (g_bool(nd["dyn"]), g_list(nd["vals"], g_n), g_fields(nd["fields"]))
-    return "(NCfgList %s %s %s)" % (g_bool(nd["required"]), g_list(nd["vals"], g_n), g_fields(nd["fields"]))
+    return "(NCfgList %s %s %s %s)" % (g_bool(nd["required"]), g_list(nd["vals"], g_n), g_fields(nd["fields"]), g_dflt(nd.get("default")))
+
+
+def g_dflt(d):
+    if d is None:
+        return "None"
+    return "(Some (%s,%s))" % (g_bool(d["callable"]), g_list(d["maps"], gal))
 
 
 def g_fields(fields):
@@ -960,7 +1057,15 @@ class Built:
                     if nd.get("ct"):
                         self.ntypes += 1
                         item = make_type(item, "IT%d" % self.ntypes)
-                    s._add_field(k, ListField(item, required=nd["required"]))
+                    lkw = {}
+                    if nd.get("default") is not None:
+                        maps = copy.deepcopy(nd["default"]["maps"])
+                        if nd["default"]["callable"]:
+                            # one more evaluation in the shared count of callable defaults, a new list of new maps every time
+                            lkw["default"] = lambda maps=maps: (next(self.counter), copy.deepcopy(maps))[1]
+                        else:
+                            lkw["default"] = maps
+                    s._add_field(k, ListField(item, required=nd["required"], **lkw))
                     self.makers[sp + (k,)] = item         # the item schema / item type
             for n in vals:
                 s._validators.append(mk_validator(n))
@@ -1373,6 +1478,11 @@ def oracle_for(prop, c, obs):
                     bad.append("fresh configuration exposes %r for %s, declared default %r" % (data.get(k), pjoin(path, k), nd["default"]))
                 if nd["t"] == "sub":
                     fresh(nd["fields"], data[k], pjoin(path, k))
+                if nd["t"] == "cfglist":
+                    want = None if nd.get("default") is None else len(nd["default"]["maps"])
+                    got = None if data.get(k) is None else (len(data[k].items) if isinstance(data.get(k), Proxy) else "?")
+                    if got != want:
+                        bad.append("fresh configuration holds %r items in %s, the declared default has %r" % (got, pjoin(path, k), want))
         fresh(fields, first, "")
     for st in c.get("_trace", []):
         o, out, before, after = st["op"], st["out"], st["before"], st["after"]
@@ -1449,6 +1559,12 @@ def oracle_for(prop, c, obs):
                 nd = dict(node_at(fields, tsteps)).get(o[1])
                 if nd is not None and nd["t"] == "leaf" and not nd["callable"] and ta[0].get(o[1]) != nd["default"]:
                     bad.append("reset of %s gives %r, declared default %r" % (o[1], ta[0].get(o[1]), nd["default"]))
+                if nd is not None and nd["t"] == "cfglist" and nd.get("default") is not None:
+                    held = ta[0].get(o[1])
+                    if not isinstance(held, Proxy) or len(held.items) != len(nd["default"]["maps"]):
+                        bad.append("reset of %s does not restore the declared default items" % o[1])
+                    elif not all(st["same"].get("%s[%d]" % (pjoin(st["tpath"] or "", o[1]), i)) is False for i in range(len(held.items))):
+                        bad.append("reset of %s kept configuration objects of the previous value" % o[1])
                 if nd is not None and nd["t"] != "leaf":
                     exp = fresh_snapshot(nd)
                     if exp is not NotImplemented and canon_snap(ta[0].get(o[1])) != canon_snap(exp):
@@ -1581,7 +1697,7 @@ def fresh_snapshot(nd):
     if nd["t"] == "leaf":
         return NotImplemented if nd["callable"] else copy.deepcopy(nd["default"])
     if nd["t"] == "cfglist":
-        return None
+        return None if nd.get("default") is None else NotImplemented      # (default items: see the C12 clause on reset below)
     data = {}
     for k, sub in nd["fields"]:
         v = fresh_snapshot(sub)
